@@ -146,6 +146,15 @@ func (r UnsafeGoSet[V]) Size() int {
 
 func (r UnsafeGoSet[V]) Iterator() Iterator[V] {
 	seq := []V{}
+	if ks := verifRangeOrder(UnsafeGoMap[V, bool](r)); ks != nil {
+		// only under the build tag verif and with a hook installed: the simulator owns the order of this range
+		for _, k := range ks {
+			if _, ok := r[k]; ok {
+				seq = append(seq, k.(V))
+			}
+		}
+		return IteratorOfSeq(seq)
+	}
 	for k := range r {
 		seq = append(seq, k.(V))
 	}
